@@ -121,14 +121,18 @@ func readerDocs(thorough bool) map[string][]byte {
 	}
 	wide.WriteString("}")
 	d := map[string][]byte{
-		"num":         []byte(`1.5`),
-		"str":         []byte(`"a` + "\\" + `nb"`),
-		"null":        []byte(`null`),
-		"emptyarr":    []byte(`[]`),
-		"emptyobj":    []byte(`{}`),
-		"arrs":        []byte(`[[1,2],[3]]`),
-		"objs":        []byte(`{"a":{"b":1},"` + U("0061") + `":2}`),
-		"strs":        []byte(`["` + "\\" + `n","x"]`),
+		"num":      []byte(`1.5`),
+		"str":      []byte(`"a` + "\\" + `nb"`),
+		"null":     []byte(`null`),
+		"emptyarr": []byte(`[]`),
+		"emptyobj": []byte(`{}`),
+		"arrs":     []byte(`[[1,2],[3]]`),
+		"objs":     []byte(`{"a":{"b":1},"` + U("0061") + `":2}`),
+		"strs":     []byte(`["` + "\\" + `n","x"]`),
+		// keys that are each other's (un)escaped forms: raw a\\n unescapes to a\n, whose raw form unescapes to a<LF>
+		"key-esc2":    []byte(`{"a` + "\\" + "\\" + `n":1,"` + "\\" + "\\" + U("0041") + `":1}`),
+		"key-esc1":    []byte(`{"a` + "\\" + `n":2,"` + U("0041") + `":2}`),
+		"key-raw":     []byte(`{"an":3,"A":3}`),
 		"wide":        []byte(wide.String()),
 		"mixed":       []byte(`[{"a":[1,{"b":"x"}]},[{}],"s"]`),
 		"eof":         []byte(`[1,`),
@@ -258,6 +262,41 @@ func c15(r *eng.Run) {
 			fmt.Println("KEY", sys.ops[i].name, sys.Replay([]int{i}, -1))
 		}
 	}
+	// all ordered pairs and triples of calls over the cheap documents WITHOUT state dedup: a
+	// canonical-state abstraction can hide state it does not know about (e.g. a cache added by
+	// a refactoring); short histories are therefore also enumerated outright
+	var cheap []int
+	for i, op := range sys.ops {
+		if len(op.doc) < 200 && op.miss == "hit" {
+			cheap = append(cheap, i)
+		}
+	}
+	nPairs := 0
+	for _, a := range cheap {
+		for _, b := range cheap {
+			sys.Replay([]int{a}, b)
+			nPairs++
+		}
+	}
+	var rv []int
+	for _, i := range cheap {
+		if sys.ops[i].fn == "ReadValue" {
+			rv = append(rv, i)
+		}
+	}
+	for _, a := range rv {
+		for _, b := range rv {
+			for _, c := range rv {
+				sys.Replay([]int{a, b}, c)
+				nPairs++
+			}
+		}
+		if r.TooMany() {
+			break
+		}
+	}
+	r.Set("histories_without_dedup", nPairs)
+	st.Transitions += nPairs
 	r.Set("states", st.States)
 	r.Set("transitions", st.Transitions)
 	r.Set("traces_validated_against_impl", st.Transitions)
